@@ -163,17 +163,13 @@ def write_replay(prop, seed, v, case, violation, digest, log, summary):
     return path
 
 
-def process_violations(prop, eng, seed, agg, pool, known, per_class=3):
+def process_violations(prop, eng, seed, agg, pool, known, per_class=8):
     """Returns (violation_lines, known_lines, harness_errors)."""
     out_viol, out_known, herrs = [], {}, []
     todo = {}
     rest = {}
     for v in sorted(agg['violations'], key=lambda v: (v['violation']['class'],
                                                       len(json.dumps(v['case'])), v['index'])):
-        k = match_known(known, prop, v['violation'], v.get('summary', {}))
-        if k is not None:
-            out_known.setdefault(k['id'], [k, 0])[1] += 1
-            continue
         cls = v['violation']['class']
         if len(todo.setdefault(cls, [])) < per_class:
             todo[cls].append(v)
@@ -198,6 +194,7 @@ def process_violations(prop, eng, seed, agg, pool, known, per_class=3):
         return None
 
     items = [v for vs in todo.values() for v in vs]
+    seen_min = set()
     for v, h in zip(items, pool.map(lambda v: _safe(handle, v), items)):
         if isinstance(h, Exception):
             herrs.append('minimisation failed for run %s: %s' % (v['index'], h))
@@ -210,6 +207,10 @@ def process_violations(prop, eng, seed, agg, pool, known, per_class=3):
         if k is not None:
             out_known.setdefault(k['id'], [k, 0])[1] += 1
             continue
+        sig = rng.digest([h['case'], h['violation']['class']])
+        if sig in seen_min:
+            continue
+        seen_min.add(sig)
         path = write_replay(prop, seed, v, h['case'], h['violation'], h['digest'], h['log'], h['summary'])
         out_viol.append((h['violation'], path, rest.get(h['violation']['class'], 0)))
     return out_viol, out_known, herrs
